@@ -53,3 +53,24 @@ PROPS["C01"] = dict(
     assumptions=["nesting depth <= 31 (default limit; other limits belong to C15)", "texts <= ~6 KiB",
                  "member names containing U+0000 are excluded while the known finding nul-in-member-name is listed"],
 )
+
+PROPS["C03"] = dict(
+    harness="C03_incremental.cpp", level="exploration",
+    technique="differential property testing: chunked feeding on one tokener vs fresh one-shot parse of the bytes fed so far, every 2-split enumerated per text, random k-splits, byte-at-a-time, stream resume; exhaustive token-soup small scopes; libFuzzer",
+    level_text="for generated valid, mutated, concatenated and token-soup texts, every 2-chunk split (plus 3-splits of short texts, random k-splits "
+               "and byte-at-a-time) under generated flag sets and depth limits is compared call by call (status, error code, value, retained "
+               "number text, end offset) with a fresh one-shot parse; all strings over a 30-symbol token alphabet up to length 3 (quick) / 4 "
+               "(thorough) and the number alphabet up to length 6 are enumerated completely",
+    level_note="the oracle is json-c's own one-shot behaviour (differential), as the property is stated; only calls whose predecessors all returned 'continue' (or that resume a stream at the reported end) are constrained",
+    rule="text x flag set x partition; non-trivial = some split position lies strictly inside a token (both neighbours are non-structural, non-whitespace bytes); "
+         "distinct by hash of (text, flags, depth). Each evaluation covers all 2-splits of its text under >=2 flag sets.",
+    quick=[dict(mode="gen", cases=24000, workers=8, maxbytes=1500),
+           dict(mode="soup3", enum=True, size=27930, workers=8)],
+    thorough=[dict(mode="gen", cases=1500000, workers=16, maxbytes=3000),
+              dict(mode="soup4", enum=True, size=837930, workers=16),
+              dict(mode="num6", enum=True, size=1111110, workers=16),
+              dict(mode="gen", fuzz=True, secs=300, jobs=8, max_len=512),
+              dict(mode="bytes", fuzz=True, secs=300, jobs=8, max_len=80, dict="fuzz/tokener_parse_ex.dict")],
+    min_labels=dict(quick=dict(split_inside_token=10000, stream_resumed=2000, src_mutated=3000, src_soup=2000)),
+    assumptions=["texts <= 400 bytes in the generated modes", "with VALIDATE_UTF8 a chunk ending inside a multi-byte character is an error for that chunk (one-shot on the prefix errs too), so the premise 'more input needed' does not hold and nothing is demanded (label utf8_chunk_mid_char)"],
+)
